@@ -502,6 +502,15 @@ func (st *fstate) applyCall(instr ssa.Instruction, common *ssa.CallCommon, resul
 			st.store(d, val, et, []string{cellOf(common.Args[0])}, "copy@"+a.pos(instr))
 		case "clear":
 			st.store(st.get(common.Args[0]), nset{}, nil, []string{cellOf(common.Args[0])}, "clear@"+a.pos(instr))
+		case "Slice", "SliceData", "String", "StringData", "Add", "ssa:wrapnilchk", "min", "max":
+			// unsafe reinterpretation / pointer arithmetic: the result addresses the operand's memory
+			if result != nil && hasPointers(result.Type()) {
+				for _, av := range common.Args {
+					if hasPointers(av.Type()) {
+						st.add(result, st.get(av))
+					}
+				}
+			}
 		}
 		return
 	}
@@ -544,6 +553,14 @@ func (st *fstate) applyCall(instr ssa.Instruction, common *ssa.CallCommon, resul
 			}
 			direct := st.get(cargs[k])
 			argCell := cellOf(cargs[k])
+			guarded := false
+			if _, onlyCard := e.cells["bitmapContainer.cardinality"]; onlyCard && len(e.cells) == 1 {
+				// cardinality cache fill reached only under the lazy sentinel (DESIGN §3.2 idiom 4)
+				guarded = a.p.sentinelGuarded(instr, cargs[k])
+			}
+			if guarded {
+				continue
+			}
 			for cell, w := range e.cells {
 				why := fmt.Sprintf("%s @%s -> %s", fname(f), a.pos(instr), w)
 				if len(why) > 600 {
